@@ -472,6 +472,11 @@ def _find_assign(s):
     return None
 
 
+def _protect_impl(line):
+    """hide the ': ' inside `<impl at file:l:c: l:c>` so that the name/type split works"""
+    return re.sub(r"(<impl at [^>]*?): (\d+:\d+>)", lambda m: m.group(1) + "\x00" + m.group(2), line)
+
+
 _fn_hdr = re.compile(r"^fn (.*?)\((.*)\) -> (.*?) \{$")
 _const_hdr = re.compile(r"^(const|static|static mut) (.*?): (.*) = \{$")
 _const_simple = re.compile(r"^(const|static) (.*?): (.*?) = const (.*);$")
@@ -501,9 +506,10 @@ def parse_mir(text, crate):
                 f.local_types[int(am.group(1))] = am.group(2)
             f.ret_type = m.group(3)
         elif line.startswith(("const ", "static ")):
+            line = _protect_impl(line)
             m = _const_simple.match(line)
             if m:
-                f = Function(crate + "::" + m.group(2), "const")
+                f = Function(crate + "::" + m.group(2).replace("\x00", ": "), "const")
                 f.ret_type = m.group(3)
                 f.simple_const = parse_const(m.group(4))
                 funcs[f.name] = f
@@ -512,8 +518,8 @@ def parse_mir(text, crate):
             m = _const_hdr.match(line)
             if not m:
                 raise ParseError("const header %r" % line)
-            f = Function(crate + "::" + m.group(2), m.group(1).split()[0])
-            f.ret_type = m.group(3)
+            f = Function(crate + "::" + m.group(2).replace("\x00", ": "), m.group(1).split()[0])
+            f.ret_type = m.group(3).replace("\x00", ": ")
         if f is None:
             i += 1
             continue
